@@ -229,6 +229,32 @@ type Cluster struct {
 	seq    int
 	// counters for evidence
 	NTailTrunc, NRestart, NLeaderChange, NHeadTrunc, NCheckpoint int
+	// FailProb > 0 makes the underlying store of a node refuse an append now and then
+	// (nothing is stored): a follower's batch is then re-sent with a new split, a leader
+	// steps down, as raft does. The stores end up holding exactly what the leaders wrote.
+	FailProb    float64
+	NAppendFail int
+	// FailedOn[node index] is set when an append failed on that node (cleared by the driver)
+	FailedOn map[int]bool
+}
+
+// ErrInjected is the transient error of the underlying store.
+var ErrInjected = fmt.Errorf("vsim: injected transient append failure")
+
+func (c *Cluster) injectFail(ni int) bool {
+	if c.FailProb <= 0 || c.Rng.Float64() >= c.FailProb {
+		return false
+	}
+	n := c.Nodes[ni]
+	n.Faulty.mu.Lock()
+	n.Faulty.FailStore = ErrInjected
+	n.Faulty.mu.Unlock()
+	c.NAppendFail++
+	if c.FailedOn == nil {
+		c.FailedOn = map[int]bool{}
+	}
+	c.FailedOn[ni] = true
+	return true
 }
 
 func cpKey(end, term uint64) string { return fmt.Sprintf("%d/%d", end, term) }
@@ -305,6 +331,21 @@ func (c *Cluster) LeaderAppend(k int, cpAt map[int]bool) error {
 			c.NCheckpoint++
 		}
 		logs = append(logs, l)
+	}
+	if c.injectFail(c.Leader) {
+		err := ld.Store(logs)
+		if err == nil {
+			return fmt.Errorf("leader %s: the underlying store refused the batch %d..%d but StoreLogs returned nil", ld.Name, logs[0].Index, logs[len(logs)-1].Index)
+		}
+		for _, l := range logs {
+			delete(ld.Written, l.Index)
+			if cpAt[int(l.Index-next)] {
+				c.NCheckpoint--
+			}
+		}
+		c.log("leader %s append %d..%d refused by its store; steps down", ld.Name, logs[0].Index, logs[len(logs)-1].Index)
+		c.ChangeLeader((c.Leader + 1 + c.Rng.Intn(len(c.Nodes)-1)) % len(c.Nodes))
+		return nil
 	}
 	if err := ld.Store(logs); err != nil {
 		return err
@@ -393,6 +434,17 @@ func (c *Cluster) Replicate(fi int, upto uint64, mutate func(l *raft.Log)) error
 			}
 			batch = append(batch, l)
 			next++
+		}
+		if c.injectFail(fi) {
+			if err := f.Store(batch); err == nil {
+				return fmt.Errorf("follower %s: the underlying store refused the batch %d..%d but StoreLogs returned nil", f.Name, batch[0].Index, batch[len(batch)-1].Index)
+			}
+			c.log("follower %s: batch %d..%d refused by its store; re-sent", f.Name, batch[0].Index, batch[len(batch)-1].Index)
+			for _, l := range batch {
+				delete(f.Written, l.Index)
+			}
+			next = batch[0].Index
+			continue
 		}
 		if err := f.Store(batch); err != nil {
 			return err
